@@ -608,6 +608,10 @@ def _opts(rng, longs, shorts, n):
     return out
 
 
+def _plain(name):
+    return name[2:-1] if name.startswith("z9") else name
+
+
 def _rank(nodes):
     order = sorted(n["name"] for n in nodes)
     for n in nodes:
@@ -659,8 +663,9 @@ def random_cfg(rng, tags=False):
         hidden = rng.random() < 0.2
         enabled = rng.random() > 0.12
         if hidden or not enabled:
-            # names that must not show up are made unmistakable: no text, label or visible name contains a "9"
-            name, al = name + "9", [x + "9" for x in al]
+            # names that must not show up are made unmistakable: no text, label or visible name contains a "9", and no
+            # such name is a piece of another one ("z9" only at the start, "9" only at the end)
+            name, al = "z9" + name + "9", ["z9" + x + "9" for x in al]
         n = {"name": name, "rank": 0, "aliases": al, "hidden": hidden, "enabled": enabled, "dflt": dflt, "anon": anon,
              "builtin": False, "desc": _desc(rng)[1] if rng.random() < 0.8 else [],
              "help": [[rng.choice(VOCAB) for _ in range(rng.choice([3, 9, 30]))] if k != 1 or rng.random() < 0.5 else []
@@ -687,7 +692,7 @@ def random_cfg(rng, tags=False):
         cl, cs = set(longs), set(shorts)
         c["opts"] = _opts(rng, cl, cs, rng.choice([0, 1, 2, 3]))
         if has_subs:
-            cname = c["name"].rstrip("9")
+            cname = _plain(c["name"])
             for _k in range(rng.randint(1, 3)):
                 s, _x = node(True, cname)
                 staken = set(taken)
@@ -697,7 +702,7 @@ def random_cfg(rng, tags=False):
                 if not s["anon"] and rng.random() < 0.4:  # a third level (with its own hidden / disabled commands)
                     outer, sub_names = sub_names, set()
                     for _m in range(rng.randint(1, 2)):
-                        t3, _y = node(True, s["name"].rstrip("9"))
+                        t3, _y = node(True, _plain(s["name"]))
                         t3["args"], _st3 = _args(rng, set(staken), sst, rng.choice([0, 0, 1, 2]), tags)
                         t3["opts"] = _opts(rng, set(sl), set(ss), rng.choice([0, 0, 1, 2]))
                         s["subs"].append(t3)
@@ -935,13 +940,17 @@ def run(ctx):
         cases.append(case)
         ctx.count(len(traces[-1]) - 1)
     nrand = 150 if quick else 2500
-    for n in range(nrand):
-        for case in subcases(random_case(ctx.rng, tags=(n % 10 == 9))):
-            tr = record(case)
-            traces.append(tr)
-            cases.append(case)
-            ctx.count(len(tr) - 1)
-            ctx.nontrivial_n += sum(1 for ev in tr if ev["op"] == "page" and len(ev["obs"]["lines"]) > 12)
+    rcases = [case for n in range(nrand) for case in subcases(random_case(ctx.rng, tags=(n % 10 == 9)))]
+    pool = multiprocessing.get_context("fork").Pool(int(os.environ.get("VERIF_REPLAY_PROCS", "4")))
+    try:
+        rtraces = pool.map(record, rcases, chunksize=4)  # recording one application is independent of the others
+    finally:
+        pool.terminate()
+    for tr, case in zip(rtraces, rcases):
+        traces.append(tr)
+        cases.append(case)
+        ctx.count(len(tr) - 1)
+        ctx.nontrivial_n += sum(1 for ev in tr if ev["op"] == "page" and len(ev["obs"]["lines"]) > 12)
     for tr, case in mism + samples:
         traces.append(tr)
         cases.append(case)
@@ -949,8 +958,8 @@ def run(ctx):
     ev = traces[first][1]
     ctx.sample({"random_application": {"commands": [c["name"] for c in cases[first]["cfg"]["cmds"]], "T": cases[first]["T"]},
                 "application_page": [" ".join(ln["w"]) for ln in ev["obs"]["lines"][:10]]})
-    for part_t, part_c in zip(chunks(traces, 120), chunks(cases, 120)):
-        ctx.validate(SPEC, "HelpPageTrace", "HelpPageTrace.cfg", part_t, cases=part_c, name="recorded-pages", chunk=120)
+    # one call: the engine decides the chunks side by side
+    ctx.validate(SPEC, "HelpPageTrace", "HelpPageTrace.cfg", traces, cases=cases, name="recorded-pages", chunk=60 if quick else 120)
 
 
 def replay(ctx, path):
